@@ -51,7 +51,14 @@ func (client *webAgentClient) shutdown() {
 }
 
 func (client *webAgentClient) handleReceiver() {
-	defer client.shutdown()
+	defer func() {
+		client.shutdown()
+
+		// The supervising MuxAgent hands over Messages, while holding its lock, until it has unregistered this
+		// client and closed the receiver. Those Messages must still be taken, otherwise the MuxAgent blocks forever.
+		for range client.receiver {
+		}
+	}()
 
 	var logger = log.WithField("web agent client", client.conn.RemoteAddr().String())
 
